@@ -3,7 +3,7 @@
 (* code -> spec for C04: every recorded call of sign_packet_with_crc_key    *)
 (* is judged against Bytes!SignHex.                                         *)
 (* event Sign: in = input text (byte values of its UTF-8), raised = BOOLEAN,*)
-(*             out = output text, out2 = output of a second identical call  *)
+(*             out = output text, out2 / raised2 = a second identical call   *)
 (***************************************************************************)
 EXTENDS Bytes, TraceKit
 
@@ -12,14 +12,14 @@ VARIABLES i, bad, dropped, tags
 JudgeSign(e) ==
   LET want == SignHex(e.in) IN
   IF want = <<>>
-  THEN [why |-> Clause(e.raised, "C04:nonhex-must-raise"), tag |-> "nonhex"]
+  THEN [why |-> Clause(e.raised, "C04:nonhex-must-raise") \o Clause(e.raised2, "C04:nonhex-must-raise-again"), tag |-> "nonhex"]
   ELSE [why |->   Clause(~e.raised, "C04:valid-hex-raised")
                \o (IF e.raised THEN <<>> ELSE
                      Clause(Len(e.out) = Len(e.in) + 8, "C04:adds-exactly-4-bytes")
                   \o Clause(Len(e.out) >= Len(e.in) /\ SubSeq(e.out, 1, Len(e.in)) = e.in, "C04:prefix-unaltered")
                   \o Clause(Len(e.out) = Len(e.in) + 8 /\ SubSeq(e.out, Len(e.in) + 1, Len(e.in) + 4) = SubSeq(want, Len(e.in) + 1, Len(e.in) + 4), "C04:crc-of-packet")
                   \o Clause(Len(e.out) = Len(e.in) + 8 /\ SubSeq(e.out, Len(e.in) + 5, Len(e.in) + 8) = SubSeq(want, Len(e.in) + 5, Len(e.in) + 8), "C04:crc-of-key")
-                  \o Clause(e.out2 = e.out, "C04:deterministic")),
+                  \o Clause(~e.raised2 /\ e.out2 = e.out, "C04:deterministic")),
         tag |-> IF Len(e.in) = 0 THEN "empty" ELSE IF Len(e.in) <= 4 THEN "short" ELSE "long"]
 
 Judge(e) == IF e.ev = "Sign" THEN JudgeSign(e) ELSE [why |-> <<"unknown-event">>, tag |-> "unknown"]
